@@ -136,6 +136,16 @@ def run(c, v3exe, prop, kinds, scs=None, n_gets=3, extra_steps=None, key_prefix=
         c.errors.append("API worker failed: " + log[-1500:])
         return scs, None
     always = {"create", "entry", "get", "malformed"}
+    # a reply that came too late for the 0.25 s timeout (a loaded machine) says nothing about these properties: sessions with a
+    # timed-out step are run once more with a timeout of 1.5 s before they are judged
+    slow = [i for i, (sc, rec) in enumerate(zip(scs, res["records"])) if "driver_error" not in rec and not rec.get("create_error")
+            and any(o.get("exc") in ("TimeoutError", "BlockingIOError") for st, o in zip(sc["steps"], rec["steps"]) if not st.get("_lost") and "_forged" not in st)]
+    if slow:
+        res2, _log2 = vf.run_api_worker(prop, {"scenarios": [dict(strip(scs[i]), timeout=1.5) for i in slow], "model_exe": v3exe}, timeout=1200)
+        if res2 is not None:
+            for i, rec in zip(slow, res2["records"]):
+                res["records"][i] = rec
+        c.coverage["sessions_rerun_with_a_longer_timeout"] = len(slow)
     for sc, rec in zip(scs, res["records"]):
         if "driver_error" in rec:
             c.errors.append("API driver error: " + rec["driver_error"])
